@@ -26,6 +26,7 @@ from sa import rules_qn
 from sa import rules_shared
 from sa import setalg
 from sa import tpl
+from sa import formula
 from sa.formula import atom, implies, equivalent, satisfiable
 
 CF = 'malt/converters/control_flow.py'
@@ -309,9 +310,14 @@ def ldu(load_v, name):
         if okv:
           ds = tpl.rdefs(v.node).reaching(main.call, src.id) if isinstance(
               src, ast.Name) else None
-          texts = [core.norm(src)] + [core.norm(d) for d in (ds or [])
-                                      if not isinstance(d, tuple)]
-          okv = ('node.' + want_ph) in texts
+          # the user fields the value can come from (`node.orelse`,
+          # `node.orelse or [pass]`, a conditional expression over it, ...)
+          p0 = v.params()[0]
+          exprs = [src] + [d for d in (ds or []) if isinstance(d, ast.AST)]
+          fields = {x.attr for e_ in exprs for x in ast.walk(e_)
+                    if isinstance(x, ast.Attribute) and core.norm(x.value) == p0
+                    and x.attr in ('body', 'orelse', 'test', 'iter', 'target')}
+          okv = fields == {want_ph}
         rep.check(holds and okv, 'OP-ROLE', site,
                   'argument for `%s` must be the generated function that holds '
                   'the user\'s %s' % (pname, want_ph),
@@ -617,21 +623,30 @@ def ldu(load_v, name):
   # directive arguments: every argument the user passed, positionally or by
   # keyword, is kept; only parameters left at UNSPECIFIED are dropped
   ma = model.func(DIRS, '_map_args')
+  from sa import collect
   rets = [r for r in core.walk_no_nested(ma.node) if isinstance(r, ast.Return)]
-  ok = len(rets) == 1 and isinstance(rets[0].value, ast.DictComp)
+  ys, problems = collect.yields(ma.node)
   facts = {}
+  ok = len(rets) == 1
   if ok:
-    dc = rets[0].value
-    g0 = dc.generators[0]
-    src = tpl.xnorm(ma, g0.iter, rets[0].value)
+    acc = '<return>' if not isinstance(rets[0].value, ast.Name) else rets[0].value.id
+    mine = [y for y in ys if y[2] == acc]
+    ok = len(mine) == 1 and len(mine[0][0]) == 1
+  if ok:
+    levels, elt, _ = mine[0]
+    lv = levels[0]
+    names = lv['target'].split(',')
+    src = core.norm(lv['iter'])
     facts['iterates'] = src
-    facts['conditions'] = [core.norm(i) for i in g0.ifs]
-    ok = len(dc.generators) == 1 and src.startswith('inspect.getcallargs(') and \
-        src.endswith('.items()') and isinstance(g0.target, ast.Tuple) and \
-        len(g0.target.elts) == 2 and core.norm(dc.key) == core.norm(g0.target.elts[0]) \
-        and core.norm(dc.value) == core.norm(g0.target.elts[1]) and len(g0.ifs) == 1 \
-        and pat.match('%s is not directives.UNSPECIFIED' % core.norm(g0.target.elts[1]),
-                      g0.ifs[0]) is not None
+    facts['conditions'] = [(pol, core.norm(t)) for pol, t in lv['conds']]
+    cf = formula.TRUE
+    for pol, t in lv['conds']:
+      f_ = formula.bool_formula(t, lambda e: 'UNSPEC' if len(names) == 2 and core.norm(
+          e) == '%s is directives.UNSPECIFIED' % names[1] else None)
+      cf = cf & (f_ if pol == 'T' else ~f_)
+    ok = len(names) == 2 and src.startswith('inspect.getcallargs(') and \
+        src.endswith('.items()') and core.norm(elt) == '(%s, %s)' % tuple(names) and \
+        formula.equivalent(cf, ~formula.atom('UNSPEC'))[0]
   rep.check(ok, 'OPTS', '%s:keeps-every-specified-argument' % ma.site,
             'the directive annotation must hold every bound argument of the '
             'directive call except those left at UNSPECIFIED', facts,
